@@ -78,6 +78,7 @@ func c09Alphabet() []mwOp {
 		{K: "remove", P: "/x", Ms: []string{"GET"}},
 		{K: "remove", Via: "R", P: ""},
 		{K: "pclean", Via: "P1"},
+		{K: "pclean", Via: ""}, // Router.Clean(): every route goes, the Use list stays
 	}
 }
 
@@ -311,7 +312,11 @@ func (s *c09Sys) apply(o mwOp) (any, bool) {
 				s.res.Remove(o.Ms...)
 			}
 		case "pclean":
-			s.p1.Clean()
+			if o.Via == "" {
+				s.r.Clean()
+			} else {
+				s.p1.Clean()
+			}
 		}
 	})
 }
